@@ -1012,6 +1012,13 @@ def model_of(case):
             return f"(MDot1d {vZ(sa[0])} {vZ(sb[0])})"
         if len(sa) >= 1 and len(sb) >= 1:
             return f"(MContract {zl([sa[-1]])} {zl([sb[-2] if len(sb) >= 2 else sb[-1]])})"
+    if op == "matmul" and (len(a["shape"]) == 0 or len(case["b"]["shape"]) == 0):
+        return f"(MMatmulNd {len(a['shape'])} {len(case['b']['shape'])})"     # otherwise NumPy may reject for other reasons
+    if op == "einsum" and "->" in A["sub"] and A["sub"].count("->") == 1:
+        out = A["sub"].split("->")[1]
+        worst = max((out.count(ch) for ch in out if ch.isalpha()), default=1)
+        if worst != 1:
+            return f"(MEinsumOut {worst})"
     if op == "ctor_coo":
         co, da, shp = A["coords"], A["data"], A["shape"]
         if shp is not None and all(isinstance(d, int) and d >= 0 for d in shp) and co and all(len(r) == len(co[0]) for r in co) \
@@ -1050,12 +1057,6 @@ def clause_of(case, code, r):
     omsg = ((r.get("np") or {}).get("msg") or "")
     if op == "einsum" and code == 20 and "more dimensions than subscripts" in omsg:
         return "einsum_fewer_subscripts_than_dims_accepted"      # f21ab0d checks the other direction only
-    if op == "einsum" and code == 20 and "includes output subscript" in omsg:
-        return "einsum_repeated_output_subscript_accepted"
-    if op == "matmul" and code == 20 and (nda == 0 or ndb == 0):
-        return "matmul_0d_operand_accepted"                      # since 32f480f dot() multiplies by a 0-d operand; matmul delegates
-    if op == "getitem" and fa == "gcxs" and code == 40 and "'NoneType' has no len()" in msg:
-        return "gcxs_getitem_newaxis_typeerror"                  # since 9bee746: len(self.indptr) on a 1-d result that got a new axis
     if op == "ctor_gcxs" and code == 20:
         # 9bee746 rejects an index pointer of the wrong LENGTH; what stays unvalidated (O(nnz) checks): index out of
         # range / negative, pointer not monotone / not ending at nnz / not starting at 0, unsorted or repeated
